@@ -334,6 +334,18 @@ def unit_shadow(how):
     return s
 
 
+def unit_shadow_and_use(how, what):
+    """an inner scope of K has a parameter called like a module variable / a module function, and K ALSO reads that variable /
+    calls that function outside the inner scope: the dependency is real"""
+    if what == "var":
+        var = {"name": "V0", "module": "main", "values": ["1", "2"]}
+        return _scaffold([{"k": "shadow", "var": "V0", "how": how}, {"k": "read", "var": "V0"}], vars_=[var],
+                         eps=[{"id": "V0", "kind": "var_value", "n": 2}], sid=f"U/shadow_and_use/{how}/var", key=f"shadow_and_use|{how}|var")
+    extra = [{"name": "h1", "module": "main", "params": [], "body": []}]
+    return _scaffold([{"k": "shadow", "var": "h1", "how": how}, {"k": "call", "fn": "h1", "form": "plain"}], extra_funcs=extra,
+                     eps=[{"id": "tag:h1", "kind": "body_tag", "n": 2}], sid=f"U/shadow_and_use/{how}/fn", key=f"shadow_and_use|{how}|fn")
+
+
 def unit_class_attr():
     """a class-level attribute initialised from a tracked module variable, read through self in a method"""
     var = {"name": "V0", "module": "main", "values": ["1", "2"]}
@@ -425,6 +437,8 @@ def unit_programs(level="quick"):
     out.append(unit_default_twice())
     out += [unit_same_path_twice(k) for k in ("lit", "same", "rt")]
     out += [unit_shadow(h) for h in SHADOWS]
+    out += [unit_shadow(h) for h in ("lambda_assigned", "nested_def_param")]
+    out += [unit_shadow_and_use(h, w) for h in ("lambda_assigned", "nested_def_param", "listcomp") for w in ("var", "fn")]
     out += [unit_class_attr(), unit_local_import(), unit_inherited()]
     out += [unit_local_module_import(), unit_result_crlf(), unit_nested_rt_keep_in_datafn()]
     # the same shapes with functions that mention no name of a non-accepted module at all (every generated function logs through
